@@ -251,8 +251,8 @@ macro_rules! set_node_state {
         #[cfg(tyberiusprime_pypipegraph2_verif)]
         crate::verif::log_transition(
             &$node.job_id,
-            format!("{:?}", $node.state),
-            format!("{:?}", $new_state),
+            verif_state_text(&$node.state),
+            verif_state_text(&$new_state),
         );
         $node.state = $new_state;
         $gen.advance();
@@ -987,7 +987,7 @@ impl<T: PPGEvaluatorStrategy> PPGEvaluator<T> {
                 #[cfg(tyberiusprime_pypipegraph2_verif)]
                 crate::verif::log_transition(
                     &self.jobs[*idx].job_id,
-                    format!("{:?}", self.jobs[*idx].state),
+                    verif_state_text(&self.jobs[*idx].state),
                     "Pruned".to_string(),
                 );
                 self.jobs[*idx].state = JobState::Ephemeral(JobStateEphemeral::FinishedSkipped);
@@ -2856,6 +2856,21 @@ impl<T: PPGEvaluatorStrategy> PPGEvaluator<T> {
     }
 }
 
+/// A job state as text for the verification harness: the Debug text (for reading), then `#`, then what
+/// the engine's own predicates say about it (`F`inished, `B`ad = failed / upstream-failed / aborted,
+/// `U`pstream-failed, `A`borted), so that the harness does not have to know the names of the states.
+#[cfg(tyberiusprime_pypipegraph2_verif)]
+fn verif_state_text(state: &JobState) -> String {
+    format!(
+        "{:?}#{}{}{}{}",
+        state,
+        if state.is_finished() { 'F' } else { '-' },
+        if state.is_failed() { 'B' } else { '-' },
+        if state.is_upstream_failure() { 'U' } else { '-' },
+        if state.is_aborted() { 'A' } else { '-' },
+    )
+}
+
 #[cfg(tyberiusprime_pypipegraph2_verif)]
 impl<T: PPGEvaluatorStrategy> PPGEvaluator<T> {
     /// structured copy of the internal state, for the verification harness
@@ -2864,7 +2879,7 @@ impl<T: PPGEvaluatorStrategy> PPGEvaluator<T> {
         for j in self.jobs.iter() {
             jobs.push((
                 j.job_id.clone(),
-                format!("{:?}", j.state),
+                verif_state_text(&j.state),
                 j.history_output.clone(),
             ));
         }
